@@ -433,11 +433,15 @@ func TestCheck(t *testing.T) {
 			}
 			// nested inside containers: same result as at top level or an error, no panic
 			var err error
-			if p := safe(func() { _, err = ugo.ToObject([]any{w.in, map[string]any{"k": w.in}}) }); p != "" {
+			var nested ugo.Object
+			if p := safe(func() { nested, err = ugo.ToObject([]any{w.in, map[string]any{"k": w.in}, int64(1)}) }); p != "" {
 				fail(rt, "c:panic-nested:"+w.name, p, c)
 				return
 			}
-			_ = err
+			if err == nil && hasNil(nested) {
+				fail(rt, "c:nil-object-nested:"+w.name, fmt.Sprintf("ToObject of a slice holding %s(%v) returned no error and a value containing a nil Object", w.name, w.in), c)
+				return
+			}
 		}
 		// (d) unsupported
 		uns := []any{
@@ -446,15 +450,37 @@ func TestCheck(t *testing.T) {
 			(*unsupportedStruct)(nil), []float64{1}, map[any]any{},
 		}
 		u := rapid.SampledFrom(uns).Draw(rt, "unsupported")
-		wrap := rapid.SampledFrom([]string{"top", "slice", "map", "deep"}).Draw(rt, "wrap")
+		wrap := rapid.SampledFrom([]string{"top", "slice", "slice-first", "slice-mid", "map", "deep", "deep-first", "random"}).Draw(rt, "wrap")
 		var in any = u
 		switch wrap {
 		case "slice":
 			in = []any{int64(1), u}
+		case "slice-first":
+			in = []any{u, int64(1), "x"}
+		case "slice-mid":
+			in = []any{int64(1), u, []any{"y"}}
 		case "map":
 			in = map[string]any{"a": "x", "b": u}
 		case "deep":
 			in = []any{map[string]any{"k": []any{u}}}
+		case "deep-first":
+			in = map[string]any{"k": []any{[]any{u, int64(2)}, int64(3)}, "z": int64(1)}
+		case "random":
+			// a generated canonical value with the unsupported leaf injected at a random slice position
+			n := rapid.IntRange(2, 5).Draw(rt, "n")
+			at := rapid.IntRange(0, n-1).Draw(rt, "at")
+			sl := make([]any, n)
+			for i := range sl {
+				if i == at {
+					sl[i] = u
+				} else {
+					sl[i] = goValue(rt, 3)
+				}
+			}
+			in = sl
+			if rapid.Bool().Draw(rt, "nestmore") {
+				in = []any{goValue(rt, 4), map[string]any{"k": sl}, goValue(rt, 4)}
+			}
 		}
 		rec.Case()
 		c := caseA{"d", fmt.Sprintf("%s:%T", wrap, u)}
@@ -563,6 +589,27 @@ func TestCheck(t *testing.T) {
 			}
 		}
 	})
+}
+
+// hasNil reports whether a converted value contains a nil Object anywhere.
+func hasNil(o ugo.Object) bool {
+	switch v := o.(type) {
+	case nil:
+		return true
+	case ugo.Array:
+		for _, e := range v {
+			if hasNil(e) {
+				return true
+			}
+		}
+	case ugo.Map:
+		for _, e := range v {
+			if hasNil(e) {
+				return true
+			}
+		}
+	}
+	return false
 }
 
 func runesToInt64(g any) any {
